@@ -58,7 +58,7 @@ func genProg(r *uint64) dprog {
 }
 
 // outcome: per goroutine "g<i>:<events>" where events are received values / panics / "stuck@k"
-func runReal(p dprog) string {
+func runReal(p dprog, wait time.Duration) string {
 	chs := [2]chan int{make(chan int, p.caps[0]), make(chan int, p.caps[1])}
 	res := make([][]string, len(p.procs))
 	var mu sync.Mutex
@@ -116,7 +116,7 @@ func runReal(p dprog) string {
 	go func() { wg.Wait(); close(fin) }()
 	select {
 	case <-fin:
-	case <-time.After(30 * time.Millisecond):
+	case <-time.After(wait):
 	}
 	mu.Lock()
 	defer mu.Unlock()
@@ -220,7 +220,12 @@ func TestDifferentialAgainstRealChannels(t *testing.T) {
 			sim[runSim(p, Config{Seed: uint64(s), Strategy: st})] = true
 		}
 		for rep := 0; rep < 3; rep++ {
-			real := runReal(p)
+			real := runReal(p, 30*time.Millisecond)
+			if !sim[real] {
+				// "stuck" is judged by a wall-clock timeout: on a loaded machine a goroutine that is
+				// merely slow looks stuck, so confirm with a generous timeout before complaining
+				real = runReal(p, 2*time.Second)
+			}
 			if !sim[real] {
 				missing++
 				keys := []string{}
